@@ -35,10 +35,15 @@ pub struct ScriptedStream {
     segs: VecDeque<Vec<u8>>,
     pub written: Arc<Mutex<Vec<u8>>>,
     pub reads: Arc<Mutex<usize>>,
+    /// the transport takes at most this many bytes per write call (0 = everything): short writes are legal
+    pub wcap: usize,
+    /// segments not yet handed out (a handler that returns early leaves some: it closed the connection)
+    pub unread: Arc<Mutex<usize>>,
 }
 impl AsyncRead for ScriptedStream {
     fn poll_read(mut self: Pin<&mut Self>, _cx: &mut Context<'_>, buf: &mut ReadBuf<'_>) -> Poll<std::io::Result<()>> {
         *self.reads.lock().unwrap() += 1;
+        *self.unread.lock().unwrap() = self.segs.len().saturating_sub(1);
         match self.segs.pop_front() {
             Some(s) => {
                 let n = s.len().min(buf.remaining());
@@ -54,8 +59,9 @@ impl AsyncRead for ScriptedStream {
 }
 impl AsyncWrite for ScriptedStream {
     fn poll_write(self: Pin<&mut Self>, _cx: &mut Context<'_>, data: &[u8]) -> Poll<std::io::Result<usize>> {
-        self.written.lock().unwrap().extend_from_slice(data);
-        Poll::Ready(Ok(data.len()))
+        let n = if self.wcap == 0 { data.len() } else { data.len().min(self.wcap) };
+        self.written.lock().unwrap().extend_from_slice(&data[..n]);
+        Poll::Ready(Ok(n))
     }
     fn poll_flush(self: Pin<&mut Self>, _cx: &mut Context<'_>) -> Poll<std::io::Result<()>> {
         Poll::Ready(Ok(()))
@@ -82,8 +88,15 @@ pub fn decode_all(bytes: &[u8]) -> (Vec<RespValue>, usize) {
 
 /// Run one connection over `segs`; returns the decoded replies and the number of undecodable bytes.
 pub async fn run_conn(state: &ShardedActorState, cfg: &ConnectionConfig, segs: Vec<Vec<u8>>) -> (Vec<RespValue>, usize) {
+    let (r, l, _) = run_conn_w(state, cfg, segs, 0).await;
+    (r, l)
+}
+
+/// as run_conn, on a transport that takes at most `wcap` bytes per write call; also returns the segments left unread
+pub async fn run_conn_w(state: &ShardedActorState, cfg: &ConnectionConfig, segs: Vec<Vec<u8>>, wcap: usize) -> (Vec<RespValue>, usize, usize) {
     let written = Arc::new(Mutex::new(Vec::new()));
-    let stream = ScriptedStream { segs: segs.into(), written: written.clone(), reads: Arc::new(Mutex::new(0)) };
+    let unread = Arc::new(Mutex::new(segs.len()));
+    let stream = ScriptedStream { segs: segs.into(), written: written.clone(), reads: Arc::new(Mutex::new(0)), wcap, unread: unread.clone() };
     // the handler must terminate by itself at EOF; a hang is caught by the timeout
     let r = tokio::time::timeout(std::time::Duration::from_secs(20), run_connection(stream, state.clone(), cfg.clone())).await;
     let w = written.lock().unwrap().clone();
@@ -91,7 +104,8 @@ pub async fn run_conn(state: &ShardedActorState, cfg: &ConnectionConfig, segs: V
     if r.is_err() {
         replies.push(RespValue::err("HANG connection handler did not finish"));
     }
-    (replies, left)
+    let u = *unread.lock().unwrap();
+    (replies, left, u)
 }
 
 fn split(bytes: &[u8], cuts: &[usize]) -> Vec<Vec<u8>> {
@@ -209,13 +223,99 @@ async fn pipe_case(run: usize, gen: &mut Gen, out: &mut Out) {
     };
     let segs = split(&bytes, &cuts);
     let nsegs = segs.len();
-    let (replies, left) = run_conn(&state, &cfg, segs).await;
+    // a transport that takes everything, or only a few bytes per write call (a slow reader, a full send buffer)
+    let wcap = [0usize, 0, 0, 1, 7, 64][gen.rng.gen_range(0..6)];
+    let (replies, left, _) = run_conn_w(&state, &cfg, segs, wcap).await;
     let final_s = crate::shard_plain::project(&state).await;
-    out.emit(&json!({"t": "pipe", "run": run, "shards": shards,
+    out.emit(&json!({"t": "pipe", "run": run, "shards": shards, "wcap": wcap,
         "cfg": {"min_pipeline_buffer": cfg.min_pipeline_buffer, "batch_threshold": cfg.batch_threshold},
         "cmds": cmds.iter().map(|(c, _)| c.clone()).collect::<Vec<_>>(),
         "argv": cmds.iter().map(|(_, a)| a.iter().map(|x| String::from_utf8_lossy(x).to_string()).collect::<Vec<_>>()).collect::<Vec<_>>(),
         "malformed": malformed, "junk": junk, "bad_at": bad_at, "nsegs": nsegs, "nbytes": bytes.len(),
+        "replies": replies.iter().map(rv_json).collect::<Vec<_>>(), "undecoded": left, "s": final_s}));
+}
+
+/// After a protocol error the connection stays usable (or is closed) - never silent.  A malformed frame, possibly
+/// far larger than a read and cut into several reads (every cut before its last two bytes, where it turns
+/// malformed), then well-formed commands in later reads: each of those is owed its reply unless the handler has
+/// closed the connection.
+async fn recover_case(run: usize, gen: &mut Gen, out: &mut Out) {
+    let shards = [1usize, 4][gen.rng.gen_range(0..2)];
+    let state = ShardedActorState::with_config(ShardConfig::with_shards(shards));
+    let cfg = ConnectionConfig { max_buffer_size: 1 << 20, read_buffer_size: 8192, min_pipeline_buffer: [0usize, 60, 70][gen.rng.gen_range(0..3)], batch_threshold: [1usize, 2, 6][gen.rng.gen_range(0..3)] };
+    let mut cmds: Vec<(Value, Argv)> = Vec::new();
+    let npre = gen.rng.gen_range(0..=2);
+    for _ in 0..npre {
+        cmds.push(pipe_command(gen));
+    }
+    let mut bytes = Vec::new();
+    for (_, argv) in &cmds {
+        bytes.extend(encode_argv(argv));
+    }
+    let pre_len = bytes.len();
+    // the malformed frame: a SET whose value of `n` bytes is not followed by CR LF, or whose last bulk header is not a number
+    let n = [0usize, 5, 100, 300, 1000, 5000, 9000, 20000][gen.rng.gen_range(0..8)];
+    let mut junk = format!("*3\r\n$3\r\nSET\r\n$2\r\nkj\r\n${}\r\n", n).into_bytes();
+    junk.extend(std::iter::repeat(b'v').take(n));
+    match gen.rng.gen_range(0..3) {
+        0 => junk.extend_from_slice(b"XY"),
+        1 => junk.extend_from_slice(b"\rX"),
+        _ => {
+            junk = format!("*3\r\n$3\r\nSET\r\n${}\r\n", n.max(1)).into_bytes();
+            junk.extend(std::iter::repeat(b'k').take(n.max(1)));
+            junk.extend_from_slice(b"\r\n$x\r\n");
+        }
+    }
+    bytes.extend_from_slice(&junk);
+    let limit = bytes.len() - 5;
+    // what the judge decodes: the frame itself, or (above 1200 bytes) its twin of the same shape with a 5-byte payload
+    let twin: Vec<u8> = if junk.len() <= 1200 { junk.clone() } else {
+        let m = 5usize;
+        let mut t;
+        if junk.ends_with(b"$x\r\n") {
+            t = format!("*3\r\n$3\r\nSET\r\n${}\r\n", m).into_bytes();
+            t.extend(std::iter::repeat(b'k').take(m));
+            t.extend_from_slice(b"\r\n$x\r\n");
+        } else {
+            t = format!("*3\r\n$3\r\nSET\r\n$2\r\nkj\r\n${}\r\n", m).into_bytes();
+            t.extend(std::iter::repeat(b'v').take(m));
+            t.extend_from_slice(&junk[junk.len() - 2..]);
+        }
+        t
+    };
+    let mut cuts: Vec<usize> = (0..gen.rng.gen_range(1..=4)).map(|_| gen.rng.gen_range(pre_len.max(1)..limit.max(pre_len + 2))).filter(|c| *c < limit).collect();
+    if gen.rng.gen_bool(0.3) {
+        cuts.clear();
+    }
+    cuts.sort();
+    cuts.dedup();
+    let mut segs = split(&bytes, &cuts);
+    // later reads: well-formed commands, one read each or all in one
+    let ntail = gen.rng.gen_range(1..=4);
+    let mut tail: Vec<(Value, Argv)> = Vec::new();
+    for _ in 0..ntail {
+        tail.push(pipe_command(gen));
+    }
+    if gen.rng.gen_bool(0.5) {
+        for (_, argv) in &tail {
+            segs.push(encode_argv(argv));
+        }
+    } else {
+        let mut t = Vec::new();
+        for (_, argv) in &tail {
+            t.extend(encode_argv(argv));
+        }
+        segs.push(t);
+    }
+    let nsegs = segs.len();
+    cmds.extend(tail);
+    let (replies, left, unread) = run_conn_w(&state, &cfg, segs, 0).await;
+    let final_s = crate::shard_plain::project(&state).await;
+    out.emit(&json!({"t": "recover", "run": run, "shards": shards, "npre": npre, "njunk": junk.len(),
+        "junk": twin, "twin": junk.len() > 1200,
+        "cmds": cmds.iter().map(|(c, _)| c.clone()).collect::<Vec<_>>(),
+        "argv": cmds.iter().map(|(_, a)| a.iter().map(|x| String::from_utf8_lossy(x).to_string()).collect::<Vec<_>>()).collect::<Vec<_>>(),
+        "nsegs": nsegs, "unread": unread,
         "replies": replies.iter().map(rv_json).collect::<Vec<_>>(), "undecoded": left, "s": final_s}));
 }
 
@@ -302,7 +402,7 @@ async fn pool_case(run: usize, kind: &str, pool_size: usize, later: usize, out: 
         .collect();
     for (c, w) in conns {
         let written = Arc::new(Mutex::new(Vec::new()));
-        let stream = ScriptedStream { segs: vec![w].into(), written: written.clone(), reads: Arc::new(Mutex::new(0)) };
+        let stream = ScriptedStream { segs: vec![w].into(), written: written.clone(), reads: Arc::new(Mutex::new(0)), wcap: 0, unread: Arc::new(Mutex::new(0)) };
         let r = tokio::time::timeout(std::time::Duration::from_secs(20), run_connection_with_pool(stream, state.clone(), cfg.clone(), pool.clone())).await;
         let bytes = written.lock().unwrap().clone();
         let (mut replies, left) = decode_all(&bytes);
@@ -418,6 +518,14 @@ pub fn main(args: &[String]) -> i32 {
         Some("pipe") => {
             for i in 0..a.usize("n", 200) {
                 let r = catch(|| rt.block_on(pipe_case(i + 1, &mut gen, &mut out)));
+                if let Err(p) = r {
+                    out.emit(&json!({"t": "pipe", "run": i + 1, "panic": p, "cmds": [], "replies": [], "malformed": false, "bad_at": 0, "undecoded": 0, "s": []}));
+                }
+            }
+        }
+        Some("recover") => {
+            for i in 0..a.usize("n", 200) {
+                let r = catch(|| rt.block_on(recover_case(i + 1, &mut gen, &mut out)));
                 if let Err(p) = r {
                     out.emit(&json!({"t": "pipe", "run": i + 1, "panic": p, "cmds": [], "replies": [], "malformed": false, "bad_at": 0, "undecoded": 0, "s": []}));
                 }
